@@ -1,3 +1,4 @@
-From Coq Require Import extraction.ExtrOcamlBasic.
+(* ReqCodecDefs is built on ReqDefs, whose binary64 rank bounds extract to OCaml floats *)
+From Coq Require Import extraction.ExtrOcamlBasic extraction.ExtrOCamlFloats extraction.ExtrOCamlInt63.
 From DS Require Import ReqCodecDefs.
 Extraction "model_reqcodec.ml" ReqCodecDefs.crun.
